@@ -396,6 +396,21 @@ func (c *Ctx) producerUsesGuarded(pkg *packages.Package, fn ast.Node, obj types.
 		if !ok || info.ObjectOf(uid) != obj || uid == id {
 			return true
 		}
+		// another definition of the variable (var mapped P; if .. { mapped = A } else { mapped = B }) is no use
+		switch pt := c.Parent(uid).(type) {
+		case *ast.ValueSpec:
+			for _, nm := range pt.Names {
+				if nm == uid {
+					return true
+				}
+			}
+		case *ast.AssignStmt:
+			for _, l := range pt.Lhs {
+				if l == ast.Expr(uid) {
+					return true
+				}
+			}
+		}
 		uses++
 		uc, ok := c.Parent(uid).(*ast.CallExpr)
 		if ok && uc.Fun != ast.Expr(uid) && depth < 2 {
@@ -746,6 +761,16 @@ type factoryProduct struct {
 // undecided, not as a violation).
 func (c *Ctx) factoryProducts(pkg *packages.Package, fac ast.Expr) (res []factoryProduct, unknown string) {
 	lit, ok := ast.Unparen(fac).(*ast.FuncLit)
+	if !ok {
+		// a literal kept in a local variable with one definition: mapperFac := func() ... {...}
+		if id, isID := ast.Unparen(fac).(*ast.Ident); isID {
+			if v, isVar := pkg.TypesInfo.ObjectOf(id).(*types.Var); isVar {
+				if rhs, has := singleDefExpr[v]; has {
+					lit, ok = ast.Unparen(rhs).(*ast.FuncLit)
+				}
+			}
+		}
+	}
 	if !ok {
 		return nil, "the worker factory " + nodeStr(c.Fset, fac) + " is not a function literal"
 	}
